@@ -485,9 +485,11 @@ def main_check(prop, tier, base_seed, budget, max_runs, workers, verbose=False):
         lines.append(f"  hash values differ between PYTHONHASHSEED=0 and {cf['hashseed']} (run {cf['idx']})")
         viol_count += 1
         exit_code = 1
-    for kid, (n, sig, seed) in sorted(known_hits.items()):
-        e = next((e for e in known_entries if e.get("id") == kid), {})
-        lines.append(f"KNOWN-FINDING: property={prop} {e.get('what', sig)} [{kid}; hit {n}x, e.g. seed {seed}]")
+    for e in known_entries:
+        kid = e.get("id")
+        n, _sig, seed = known_hits.get(kid, (0, None, None))
+        hit = f"re-confirmed {n}x in this run, e.g. seed {seed}" if n else "not reached in this run"
+        lines.append(f"KNOWN-FINDING: property={prop} {e.get('what')} [{kid}; {hit}]")
     wall = time.time() - t0
     # ---------------- evidence
     faults = {k[6:]: v for k, v in agg.items() if k.startswith("fault:")}
